@@ -4,6 +4,7 @@
 # demo fails with the change and passes without. On success copies it to /verif/seeded/<name>/.
 set -u
 src=$1; name=$2
+mkdir -p /tmp/seed
 export GOFLAGS=-mod=mod GOPROXY=off GOSUMDB=off GOTOOLCHAIN=local
 wt=/tmp/seed/confirm-$$
 git -C /repo worktree add --detach $wt HEAD >/dev/null 2>&1 || { echo "worktree failed"; exit 3; }
